@@ -18,6 +18,18 @@ Theorem C13_serials : forall hdr_fields ops c' evs, Forall op_wf ops ->
 Proof. exact serials_fresh_increasing. Qed.
 Print Assumptions C13_serials.
 
+(* one operation, in particular a send that is suspended after a partial write (into_progress), sees k
+   calls of alloc_serial and is resumed (resume): the serial of the resumed context - the one write()
+   returns - is the preset one or the one chosen by send_message and is the one in the header that
+   is transmitted; the serials handed out meanwhile are larger and increasing *)
+Theorem C13_step : forall hdr_fields c o c' e, conn_ok c -> op_wf o -> step hdr_fields c o = Ok (c', e) ->
+  conn_ok c' /\ serial_counter c' = serial_counter c + serials_taken o
+  /\ StronglySorted N.lt (issued_of e)
+  /\ Forall (fun s => serial_counter c <= s < serial_counter c') (issued_of e)
+  /\ sent_ok e.
+Proof. exact step_spec. Qed.
+Print Assumptions C13_step.
+
 (* ... and whatever is handed out later exceeds everything handed out before *)
 Theorem C13_later_exceeds_earlier : forall hdr_fields ops1 ops2 c1 evs1 c2 evs2,
   Forall op_wf ops1 -> Forall op_wf ops2 ->
@@ -28,7 +40,7 @@ Print Assumptions C13_later_exceeds_earlier.
 
 (* a history ends normally iff it takes fewer than 2^32-1 serials from the counter; otherwise it
    panics ("run out of serials") - no other outcome exists *)
-Theorem C13_history_outcome : forall hdr_fields ops,
+Theorem C13_history_outcome : forall hdr_fields ops, Forall op_wf ops ->
   (nallocs ops < 2^32 - 1 -> exists c' evs, run_ops hdr_fields ops conn_init = Ok (c', evs))
   /\ (2^32 - 1 <= nallocs ops -> run_ops hdr_fields ops conn_init = Panic).
 Proof. exact history_outcome. Qed.
